@@ -48,6 +48,8 @@ fn main() {
 	let result = std::panic::catch_unwind(std::panic::AssertUnwindSafe(|| match (id.as_str(), &case) {
 		("C20", None) => checks::c20::run(ctx.clone()),
 		("C20", Some(c)) => checks::c20::replay(ctx.clone(), c),
+		("C01", None) => checks::c01::run(ctx.clone()),
+		("C01", Some(c)) => checks::c01::replay(ctx.clone(), c),
 		("C12", None) => checks::c12::run(ctx.clone()),
 		("C12", Some(c)) => checks::c12::replay(ctx.clone(), c),
 		("C14", None) => checks::c14::run(ctx.clone()),
